@@ -32,6 +32,20 @@ CHECKS = {
              're on each run), spec/trs_spec.py. Numbers in construct_trs are enumerated (formatting concretises them). '
              'A missing section yielding the error section (TRS("154n97w") -> "154n97wXX") is accepted as an error '
              'placeholder, not a violation. Floor: N=12.'),
+    'C16': dict(
+        engine='A+S', category='model_checking', design_ref='DESIGN.md §4 C16',
+        technique='SMT (z3) search over the NFA of every live pattern for exponential-ambiguity witnesses and polynomial loop '
+                  'chains; each witness confirmed by timing the real parser in an isolated interpreter; CrossHair bound on '
+                  'text growth of the substitution loop',
+        text='For each of the 44 compiled patterns used on the parse path z3 decides whether an exponential-ambiguity witness '
+             'with pump length <= 3 (quick) / 6 (thorough) or a chain of >= 4 positions looping on one character exists; '
+             'every witness is turned into a <= 300-character description and counts only if pytrs.PLSSDesc(text, '
+             'parse_qq=True) then needs more than 2 s; plss_preprocess.sub_scrubber is bounded to linear growth for up to 3 '
+             '(possibly identical) matches.',
+        note='Partly reachable: the cost model of CPython\'s sre engine is not encoded; zero-width assertions are ignored in the '
+             'ambiguity search (candidates are filtered by replay); quadratic blow-ups and pumps longer than K are outside. '
+             'Five patterns are confirmed slow on the pinned tree and listed in known_findings.jsonl (keyed by pattern and '
+             'witness kind); any other pattern becoming slow is a VIOLATION.'),
     'C17': dict(
         engine='S', category='other', design_ref='DESIGN.md §4 C17',
         technique='CrossHair (z3-backed symbolic execution) of the real custom_sort/_sort_custom over symbolic element '
